@@ -193,6 +193,11 @@ class Switch(Generic[R], GenerativeFunction[R]):
         idx, branch_args = _clamp_index(args[0], len(self.branches)), args[1:]
         self._check_args_match_branches(branch_args)
 
+        if isinstance(idx, int):
+            # A concrete index selects its branch statically; the trace's own choice map
+            # then holds that branch's addresses only.
+            return self.branches[idx].assess(sample, branch_args[idx])
+
         fs = list(f.assess for f in self.branches)
         f_args = list((sample, args) for args in branch_args)
 
